@@ -6,27 +6,27 @@ V = os.path.dirname(os.path.dirname(os.path.abspath(__file__)))
 CHECKS = {
  "C01": dict(cat="exploration", ref="§3 C01",
    technique="bounded-exhaustive enumeration of opening statements x CPU counts on the real prover/verifier + exhaustive schedule exploration (DPOR) of the grouping fan-in",
-   text="All index tuples over Z5^n (n<=3) x NumCPU {1,2,3,16,17}, all POLY^2 pairs, all representation pairs, all pointer-sharing partitions, a size sweep to 257 openings, the grouping seam for all (n,NumCPU) in [0,40]x[1,40] against a reference sum, and every arrival order of the worker fan-in (unbounded DPOR) are executed; each proof must verify on a fresh transcript with equal next challenge, a subset additionally against the reference verifier.",
+   text="All index tuples over Z5^n (n<=3) x NumCPU {1,2,3,16,17}, all POLY^2 pairs, all representation pairs, all pointer-sharing partitions, a size sweep to 257 and 1025 openings, (NumCPU,GOMAXPROCS) pairs that differ, every call under a per-call time limit, the grouping seam for all (n,NumCPU) in [0,40]x[1,40] against a reference sum, and every arrival order of the worker fan-in (unbounded DPOR) are executed; each proof must verify on a fresh transcript with equal next challenge, a subset additionally against the reference verifier.",
    note="Alphabets instead of all of Fr^256; NumCPU through the overlay seam; reference verifier trusted via pinned vectors."),
  "C02": dict(cat="exploration", ref="§3 C02",
    technique="exhaustive single-component perturbation menu over honest proofs, decision compared with an independent reference verifier on the same tuple",
-   text="For 8 (32 thorough) honest base proofs every perturbation of a fixed menu (each C_i, z_i, y_i, D, L_j, R_j, a, order, number, label, splices, re-representations, all shape errors) is fed to CheckMultiProof / CheckIPAProof and to the reference verifier; decisions must agree, representation-only changes must stay accepted, value changes must be rejected, shapes must error without panic.",
+   text="For 8 (32 thorough) honest base proofs every perturbation of a fixed menu (each C_i, z_i, y_i, D, L_j, R_j, a, order, number, label, splices, re-representations, all shape errors), proofs forged through the prover API with mismatching polynomials, a 1025-opening statement with late and compensating false claims, and the challenge powers themselves are fed to CheckMultiProof / CheckIPAProof and to the reference verifier; decisions must agree, representation-only changes must stay accepted, value changes must be rejected, shapes must error without panic.",
    note="Agreement with the specification equation, not cryptographic soundness; valid group elements only."),
  "C03": dict(cat="exploration", ref="§3 C03",
    technique="proof bytes compared with an independent reference prover over an enumerated statement list x every configuration (NumCPU seam, real affinity/GOMAXPROCS child processes, representations, call history) + DPOR over MSM fan-in schedules + bounded enumeration of sync.Pool answers",
-   text="Serialized proofs and post-proof challenges equal the reference prover's for every enumerated statement (incl. n>=11 openings) and IPA point; identical under every enumerated configuration; one outcome over all schedules of the 2-/3-point MSM fan-in; unchanged under every pool answer (<=2 deviations) with poisoned pooled objects.",
+   text="Serialized proofs and post-proof challenges equal the reference prover's for every enumerated statement (incl. n>=11 openings) and IPA point; identical under every enumerated configuration and when the same argument objects are proved twice; one outcome over all schedules of the 2-/3-point MSM fan-in and over the explored schedules of whole proofs (DPOR, time cap); unchanged under every pool answer (<=2 deviations) with poisoned pooled objects.",
    note="Reference prover pinned by the two cross-implementation byte vectors; whole-proof schedule exploration only to the stated bounds."),
  "C04": dict(cat="exploration", ref="§3 C04",
    technique="bounded-exhaustive enumeration of (evaluation point, polynomial, claimed result) against coefficient-form evaluation by the reference",
-   text="15 evaluation points incl. 254,255,256,257,r-1 (all 0..300 thorough) x 14 polynomials x 8 claimed results: CheckIPAProof accepts exactly result = p(point) computed by interpolation + Horner; computeBVector compared with reference Lagrange coefficients across the 255/256 boundary.",
+   text="15 evaluation points incl. 254,255,256,257,2^64,r-1 (all 0..300 thorough) x 14 polynomials x 8 claimed results, re-proved under 8 CPU counts, proofs stored back to back in one buffer: CheckIPAProof accepts exactly result = p(point) computed by interpolation + Horner; computeBVector compared with reference Lagrange coefficients across the 255/256 boundary.",
    note="Alphabet of points/polynomials; rejection of wrong results is probabilistic (2^-250)."),
  "C05": dict(cat="exploration", ref="§3 C05",
    technique="exhaustive enumeration of every (point, window, digit, carry-in) of the precomputed MSM tables through the public Commit, against incrementally maintained reference multiples",
-   text="Thorough drives all 14.6 M (i,k,v,c) combinations; quick all 16-bit tables of two points, all 8-bit tables and boundary digits elsewhere; plus carry chains of every length from every window, edge scalars, vectors of many lengths, linearity and agreement with MultiScalar, and SRS = reference CRS.",
+   text="Both tiers drive all 14.6 M (i,k,v,c) combinations (13.5 M evaluations in quick); plus carry chains of every length from every window, edge scalars, vectors of many lengths, linearity and agreement with MultiScalar, and SRS = reference CRS.",
    note="Per-scalar walks are independent, so single-coefficient vectors cover the table structure; multi-coefficient interaction is covered by the vector sweeps only."),
  "C06": dict(cat="exploration", ref="§3 C06",
    technique="bounded-exhaustive enumeration of byte strings (all x < 2^18 / 2^22, boundary bands around p and 2^256, aliases, all lengths) against a math/big reference predicate",
-   text="SetBytes, ReadPoint and SetBytesUncompressed(untrusted) accept exactly what the reference predicate accepts on every enumerated input; accepted inputs re-encode to themselves, have order dividing r (subset), and aliases x+p, x+2p are rejected.",
+   text="SetBytes, ReadPoint and SetBytesUncompressed(untrusted) accept exactly what the reference predicate accepts on every enumerated input, also after the unchecked decoders saw the same bytes; accepted inputs re-encode to themselves, have order dividing r (subset), and aliases x+p, x+2p are rejected.",
    note="Inputs outside the enumerated ranges are represented by PRF members only."),
  "C08": dict(cat="exploration", ref="§3 C08",
    technique="full cross product of an element alphabet x 4 representations x aliasing patterns x edge-scalar alphabet against an independent math/big group law",
